@@ -1,12 +1,19 @@
 /* consts/hostlist.c -- compiled against /repo's CURRENT working tree on every run.
  *
- * Built once per section (-DPROBE_xxx); each section #includes the real
- * source file / headers so that the C compiler evaluates the macros the
- * Lean models depend on, and prints Lean definitions for Gen/Consts.lean.
+ * #includes the real src/common/hostlist.c so that the C compiler evaluates the macros the Lean
+ * models depend on, and RUNS small behavioural probes of the real code that tell which variant of
+ * each recorded defect the source carries (FIX_Dnn : Bool).  The model is parametrised by these
+ * switches (Hostlist/Basic.lean `Cfg`, Hostlist/Probed.lean `Cfg.probed`): nothing is edited when
+ * a repair is committed to /repo, the next run simply models the repaired variant.
+ * Every probe runs in a forked child (some of the unrepaired variants are undefined behaviour);
+ * a probe whose sub-tests disagree makes this program fail (the run is then reported as broken).
  */
 #define _GNU_SOURCE
 #include <stdio.h>
 #include <string.h>
+#include <stdlib.h>
+#include <unistd.h>
+#include <sys/wait.h>
 
 static void lean_str(const char *name, const char *s)
 {
@@ -24,8 +31,103 @@ void lsd_fatal_error(char *f, int l, char *m) { (void)f; (void)l; (void)m; }
 #ifdef WITH_LSD_NOMEM_ERROR_FUNC
 void *lsd_nomem_error(char *f, int l, char *m) { (void)f; (void)l; (void)m; return 0; }
 #endif
+
+/* ---- behavioural probes: each returns 1 (repaired behaviour), 0 (recorded defect), 2 (mixed) ---- */
+static int refused(const char *expr)
+{
+    hostlist_t h = hostlist_create(expr);
+    if (h) hostlist_destroy(h);
+    return h == NULL;
+}
+static int all_or_none(int a, int n)
+{
+    return a == n ? 1 : a == 0 ? 0 : 2;
+}
+static char *first_next(const char *expr)
+{
+    hostlist_t h = hostlist_create(expr);
+    hostlist_iterator_t it;
+    if (!h) return NULL;
+    it = hostlist_iterator_create(h);
+    return hostlist_next(it);
+}
+static int p_ulongmax(void)     /* D15/D25: is a bound of 2^64-1 (and every clamped number) refused? */
+{
+    return all_or_none(refused("a[18446744073709551615]") + refused("a[0-99999999999999999999]")
+                       + refused("a[99999999999999999999]") + refused("a[18446744073709551614-18446744073709551615]"), 4);
+}
+static int p_digits(void)       /* D16: must range bounds be digit strings? */
+{
+    return all_or_none(refused("a[1x-3]") + refused("a[+1-3]") + refused("a[ 1-3]") + refused("a[1-]")
+                       + refused("a[1- 3]"), 5);
+}
+static int p_itersuffix(void)   /* D17: does hostlist_next print a number of 15 characters in full? */
+{
+    char *a = first_next("a[000000000000001]"), *b = first_next("a[100000000000000000-100000000000000001]");
+    return all_or_none((a && !strcmp(a, "a000000000000001")) + (b && !strcmp(b, "a100000000000000000")), 2);
+}
+static int p_curtok(void)       /* D18: does a plain word of 1500 bytes come back intact? */
+{
+    char w[1501], *b;
+    memset(w, 'x', 1500); w[1500] = 0;
+    b = first_next(w);
+    return b && !strcmp(b, w);
+}
+static int p_suffixbal(void)    /* D22: are stray brackets outside the first pair refused? */
+{
+    int r = all_or_none(refused("a[1]]") + refused("a][1]") + refused("a[1]b[") + refused("a[1]b[2]]"), 4);
+    if (r == 1 && refused("a[1-2]-[0-1]"))
+        return 2;
+    return r;
+}
+static int p_hostbuf(void)      /* D23: is a name of more than 4095 bytes on the suffix path kept whole? */
+{
+    static char e[5000];
+    char *a;
+    strcpy(e, "a[1]");
+    memset(e + 4, 'y', 4200); e[4204] = 0;
+    a = first_next(e);
+    return a && strlen(a) == 4202;
+}
+static int p_nth(void)          /* D24: does hostlist_nth print a name with a 90-byte prefix in full? */
+{
+    char e[128], *a;
+    hostlist_t h;
+    memset(e, 'p', 90); strcpy(e + 90, "[1-2]");
+    h = hostlist_create(e);
+    if (!h) return 2;
+    a = hostlist_nth(h, 1);
+    return a && strlen(a) == 91 && a[90] == '2';
+}
+/* run a probe in a child: a crash / hang of the child means "recorded defect" (0) */
+static int probe(int (*f)(void))
+{
+    pid_t pid;
+    int st = 0;
+    fflush(stdout);
+    pid = fork();
+    if (pid == 0) {
+        alarm(5);
+        _exit(f());
+    }
+    if (pid < 0 || waitpid(pid, &st, 0) < 0) return 2;
+    if (!WIFEXITED(st)) return 0;
+    return WEXITSTATUS(st);
+}
+static int lean_bool(const char *name, int v)
+{
+    if (v != 0 && v != 1) {
+        fprintf(stderr, "probe %s: the sub-tests disagree (%d)\n", name, v);
+        return 1;
+    }
+    printf("def %s : Bool := %s\n", name, v ? "true" : "false");
+    return 0;
+}
+
 int main(void)
 {
+    int bad = 0;
+    (void) lean_str;
     LEAN_NAT("MAX_RANGE", MAX_RANGE);
     LEAN_NAT("MAX_RANGES", MAX_RANGES);
     LEAN_NAT("MAX_HOST_SUFFIX", (MAX_HOST_SUFFIX));
@@ -36,10 +138,13 @@ int main(void)
 #else
     LEAN_NAT("RECKLESS_HOSTRANGE", 0);
 #endif
-    {
-        struct hostlist_iterator it;
-        LEAN_NAT("ITER_SUFFIX_BUF", 0); /* placeholder kept for layout stability */
-        (void) it;
-    }
-    return 0;
+    LEAN_NAT("ITER_SUFFIX_BUF", 0); /* placeholder kept for layout stability */
+    bad |= lean_bool("FIX_D15_ULONGMAX", probe(p_ulongmax));
+    bad |= lean_bool("FIX_D16_DIGITS", probe(p_digits));
+    bad |= lean_bool("FIX_D17_ITERSUFFIX", probe(p_itersuffix));
+    bad |= lean_bool("FIX_D18_CURTOK", probe(p_curtok));
+    bad |= lean_bool("FIX_D22_SUFFIXBAL", probe(p_suffixbal));
+    bad |= lean_bool("FIX_D23_HOSTBUF", probe(p_hostbuf));
+    bad |= lean_bool("FIX_D24_NTH", probe(p_nth));
+    return bad;
 }
